@@ -20,8 +20,8 @@ checks = {
    note="Bounded by depth (chain length <= depth-1). Where the statement is silent (state after refusing a never-used token) the model adopts the implementation's answer and counts a dont_care."),
  "C08": dict(level="model_checking", engine="HIST", ref="DESIGN.md §5 C08",
    technique="explicit-state BFS over API histories with revocation by owner / foreign / unauthenticated callers and all token_type_hints on tokens in every liveness state; store-dump equality for 'changes nothing'",
-   text="Every history up to the stated depth over <=2 grants where each token ever seen can be revoked by owner, foreign client or a caller failing authentication, with 6 hint values (absent, access_token, refresh_token, garbage, id_token, authorize_code); the verdict is the endpoint's HTTP answer; oracle: owner => token and sibling dead in all later sweeps; foreign => unauthorized_client and byte-identical store dump; unauthenticated => unchanged; already invalid => success and unchanged. Plus: a refresh request validated before and completed after the owner's accepted revocation (of the presented refresh token / of its sibling access token) must not yield live tokens.",
-   note="Bounded by depth; 'other tokens of the same grant' after an owner revocation are not pinned by the statement and are adopted from introspection."),
+   text="Every history up to the stated depth over <=2 grants where each token ever seen can be revoked by owner, foreign client, a caller failing authentication, or the owner presenting a forged string that carries the token's signature part, with 6 hint values (absent, access_token, refresh_token, garbage, id_token, authorize_code); the verdict is the endpoint's HTTP answer; oracle: owner => token and sibling dead in all later sweeps; foreign => unauthorized_client and byte-identical store dump; unauthenticated => unchanged; already invalid => success and unchanged. Plus: a refresh request validated before and completed after the owner's accepted revocation (of the presented refresh token / of its sibling access token) must not yield live tokens.",
+   note="Bounded by depth; 'other tokens of the same grant' after an owner revocation are not pinned by the statement and are adopted from introspection. Known finding: a forged string with a genuine signature part revokes the grant (see known_findings.json)."),
  "C09": dict(level="model_checking", engine="HIST", ref="DESIGN.md §5 C09",
    technique="explicit-state BFS over API histories of all grant types; in every reached state the introspection endpoint is queried for every token under a grid of hints, scopes and caller credentials and compared with the model",
    text="In every state reached by histories up to the stated depth (code, hybrid, password, device, client credentials, OIDC; HMAC and JWT; refresh-token validation on/off; 3 scope strategies) every token ever seen is introspected and active/payload compared with the reference model; refresh tokens are also presented by a foreign client (replay detection must kill the family whoever replays); callers include a public client's id with some secret and the token itself as bearer in other spellings (known finding).",
